@@ -158,7 +158,22 @@ class Proc:
                 except Exception:
                     pass
 
+    MAX_STORES_PER_PROCESS = 1500
+
     def run(self, lines):
+        """A worker process keeps every LMDB environment it ever opened (heed caches them), so a run that
+        creates thousands of stores is split, at `NEW` lines, over several processes."""
+        news = [k for k, l in enumerate(lines) if l.startswith('NEW ')]
+        if len(news) <= self.MAX_STORES_PER_PROCESS:
+            return self._run(lines)
+        cuts = [news[k] for k in range(self.MAX_STORES_PER_PROCESS, len(news), self.MAX_STORES_PER_PROCESS)]
+        out, a = [], 0
+        for b in cuts + [len(lines)]:
+            out.extend(self._run(lines[a:b]))
+            a = b
+        return out
+
+    def _run(self, lines):
         replies = []
         i = 0
         n = len(lines)
